@@ -104,14 +104,40 @@ def scenarios(r, p):
     return None, [None, None, perturb_and_drop_owner, None]
 
 
-def check_scenario(ck, drv, p, stored, steps):
-    got = rf45.run_scenario(ck, drv, p, stored, steps)
+WRITE_FAULTS = ["raise-before", "raise-before", 500, 503, 409, 429, "no-response", "raise-after"]
+
+
+def failed_correction(r, p):
+    """(stored, steps, faults): the corrective call itself fails — the PATCH / DELETE of the pass that found the
+    drift is answered with an error or raises in flight (the second API call of that pass).  The drift is still
+    there afterwards (except `raise-after`: applied, the client did not see the answer): the next pass has to
+    correct it as if nothing had happened; so has a pass over a *new* drift later on."""
+    stored, steps = scenarios(r, p)
+    steps = list(steps)
+    perturbs = [i for i, s in enumerate(steps) if s is not None]
+    if not perturbs:
+        return stored, steps, None
+    i = perturbs[0]
+    fault = {"at": 1, "fault": r.choice(WRITE_FAULTS)}
+    c = r.random()
+    if c < 0.5:            # drift, failed correction, correction, quiet pass
+        steps = steps[:i + 1] + [None, None]
+    elif c < 0.8:          # ... and a new drift after the repaired one
+        steps = steps[:i + 1] + [None, None, steps[i], None]
+    else:                  # the correction fails twice
+        steps = steps[:i + 1] + [None, None, None]
+        return stored, steps, {i: fault, i + 1: {"at": 1, "fault": r.choice(WRITE_FAULTS)}}
+    return stored, steps, {i: fault}
+
+
+def check_scenario(ck, drv, p, stored, steps, faults=None):
+    got = rf45.run_scenario(ck, drv, p, stored, steps, faults=faults)
     if got is None:
         return
     obs, _ = got
     t = rf45.target_of(p)
     prev = None
-    for o in obs:
+    for n, o in enumerate(obs):
         if o["before"] is not None and g.wf(t) and not g.meets("excl", t, o["before"]):
             ck.nontriv(("e", rf45.cn(p["T"]), p["policy"], rf45.cn(o["before"])))
             ck.count(f"drifted-pass:{p['policy']}")
@@ -119,11 +145,29 @@ def check_scenario(ck, drv, p, stored, steps):
                 ck.count("drifted-pass-after-a-matching-pass")
                 if rf45.cn(rf45._outside_metadata(prev["before"])) == rf45.cn(rf45._outside_metadata(o["before"])):
                     ck.count("drifted-pass-after-a-matching-pass:metadata-only")
+            if any(q.get("wfault") is not None for q in obs[:n]):
+                ck.count("drifted-pass-after-a-failed-correction")
+        if o.get("wfault") is not None:
+            # the write of this pass failed in flight: its outcome is the API layer's error; the property
+            # speaks about the passes that follow (the drift is still there, or there is a new one)
+            ck.count(f"failed-correction:{p['policy']}:{o['wfault']['fault']}")
+            prev = o
+            continue
         bad = rf45.oracle_c05_pass(p, o)
         if bad:
             # the pass before belongs to the input: what the process saw earlier may matter
             befores = ([prev["before"]] if prev is not None and prev["before"] is not None else []) + [o["before"]]
-            ck.violate({"kind": "e2e", "p": p, "befores": befores}, bad)
+            case = {"kind": "e2e", "p": p, "befores": befores}
+            if faults:
+                # with faults in the scenario the whole history on the present object belongs to the input
+                s0 = n
+                while s0 > 0 and obs[s0 - 1]["before"] is not None:
+                    s0 -= 1
+                case["befores"] = [q["before"] for q in obs[s0:n + 1]]
+                fs = {str(k - s0): q["wfault"] for k, q in enumerate(obs[:n]) if k >= s0 and q.get("wfault") is not None}
+                if fs:
+                    case["faults"] = fs
+            ck.violate(case, bad)
         prev = o
 
 
@@ -136,7 +180,7 @@ def replay_case(case, verbose=True) -> str | None:
         return bad
     p, befores = case["p"], case["befores"]
     steps = [(lambda cur, b=b: copy.deepcopy(b)) for b in befores]
-    obs = rf45.Prepared(p).run_passes(None, steps)
+    obs = rf45.Prepared(p).run_passes(None, steps, case.get("faults"))
     if obs and "prepare" in obs[0]:
         return None
     bad = rf45.oracle_c05_pass(p, obs[-1])
@@ -172,6 +216,11 @@ def run(tier: str) -> int:
         p = rf45.gen_program(r, nulls=r.random() < 0.05)
         stored, steps = scenarios(r, p)
         check_scenario(ck, drv, p, stored, steps)
+    r = rng("c05-e2e-failed-correction")
+    for _ in range(100 if quick else 1000):
+        p = rf45.gen_program(r, policy=r.choice(["patch", "patch", "recreate", "default", None]))
+        stored, steps, faults = failed_correction(r, p)
+        check_scenario(ck, drv, p, stored, steps, faults)
     if not quick:
         ck.leanchecker()
     if listed:
@@ -186,6 +235,10 @@ def run(tier: str) -> int:
             p = rf45.gen_program(r2)
             stored, steps = scenarios(r2, p)
             check_scenario(ck, drv, p, stored, steps)
+            if r2.random() < 0.3:
+                p = rf45.gen_program(r2)
+                stored, steps, faults = failed_correction(r2, p)
+                check_scenario(ck, drv, p, stored, steps, faults)
 
     return ck.finish(
         widen=widen,
